@@ -10,9 +10,11 @@ for f in sorted(glob.glob('/verif/harness/specs/C*.json')):
         q = h.get('quick', {}) or {}
         t = h.get('thorough', {}) or {}
         def fmt(ts, base=None):
+            if ts.get('skip'):
+                return "not run in this tier"
             p = dict((base or {}).get('params') or {})
             p.update(ts.get('params') or {})
-            s = ",".join(f"{k}={v}" for k, v in sorted(p.items()) if k not in ('only_state',))
+            s = ",".join(f"{k}={v}" for k, v in sorted(p.items()) if not (k == 'only_state' and v == 0))
             pb = ts.get('preempt_bound', (base or {}).get('preempt_bound'))
             if pb:
                 s += f",preempt_bound={pb}"
